@@ -63,6 +63,12 @@ func c17Variants() []c17Variant {
 		{"no-lla", func(i *ref.Iface) { i.Scalars["source_lla"] = false }},
 		{"captive-portal", func(i *ref.Iface) { i.Scalars["captive_portal"] = "https://example.com/portal" }},
 		{"pref64", func(i *ref.Iface) { i.PREF64 = append(i.PREF64, T("prefix", "2001:db8:64::/96")) }},
+		{"subsecond-lifetimes", func(i *ref.Iface) {
+			i.Prefix = append(i.Prefix, T("prefix", "2001:db8:5::/64", "valid_lifetime", "600.6s", "preferred_lifetime", "300.5s"))
+			i.Route = append(i.Route, T("prefix", "2001:db8:5500::/48", "lifetime", "99.999s"))
+			i.RDNSS = append(i.RDNSS, T("servers", []string{"2001:db8::55"}, "lifetime", "1500ms"))
+			i.DNSSL = append(i.DNSSL, T("domain_names", []string{"sub.example"}, "lifetime", "2m0.75s"))
+		}},
 		{"header", func(i *ref.Iface) {
 			i.Scalars["managed"], i.Scalars["preference"], i.Scalars["reachable_time"], i.Scalars["default_lifetime"] = true, "high", "1.5s", "1234s"
 		}},
@@ -171,7 +177,22 @@ func c17Check(c c17Case) (out [][2]string) {
 	}
 	var serr error
 	guard("metrics scrape", func() { serr = mm.constScrape(metrics) })
-	guard("metrics Series", func() { mm.Series() })
+	var series map[string]metricslite.Series
+	guard("metrics Series", func() { series, _ = mm.Series() })
+	if serr != nil && series != nil {
+		// A failed scrape must be visible as a failure to whoever scrapes (metricslite
+		// marks the metric named by a *ScrapeError with the sample -1); a scrape that
+		// neither reports nor fails leaves the operator with silently missing series.
+		surfaced := false
+		for _, se := range series {
+			if v, ok := se.Samples[""]; ok && v == -1 {
+				surfaced = true
+			}
+		}
+		if !surfaced {
+			bad("C17:scrape-error-not-surfaced", "the scrape failed (%v) but the metrics backend was not told: series are silently missing", serr)
+		}
+	}
 	if c.Prepared && !c.StateErr && wantOK {
 		if serr != nil {
 			bad("C17:scrape-error", "scrape failed although the interface is prepared: %v", serr)
@@ -285,6 +306,9 @@ func c17Check(c c17Case) (out [][2]string) {
 			switch o := o.(type) {
 			case *ndp.PrefixInformation:
 				kind, must = "prefix", []string{netip.PrefixFrom(o.Prefix, int(o.PrefixLength)).String()}
+				if o.ValidLifetime%time.Second != 0 { // configured (not counting down): the API shows what the wire carries
+					must = append(must, fmt.Sprintf(`"valid_lifetime_seconds":%d`, int(o.ValidLifetime/time.Second)), fmt.Sprintf(`"preferred_lifetime_seconds":%d`, int(o.PreferredLifetime/time.Second)))
+				}
 			case *ndp.RouteInformation:
 				kind, must = "route", []string{netip.PrefixFrom(o.Prefix, int(o.PrefixLength)).String(), fmt.Sprintf(`"route_lifetime_seconds":%d`, int(o.RouteLifetime.Seconds()))}
 			case *ndp.RecursiveDNSServer:
@@ -292,11 +316,13 @@ func c17Check(c c17Case) (out [][2]string) {
 				for _, s := range o.Servers {
 					must = append(must, `"`+s.String()+`"`)
 				}
+				must = append(must, fmt.Sprintf(`{"lifetime_seconds":%d,"servers":["%s"`, int(o.Lifetime/time.Second), o.Servers[0]))
 			case *ndp.DNSSearchList:
 				kind = "dnssl"
 				for _, d := range o.DomainNames {
 					must = append(must, `"`+d+`"`)
 				}
+				must = append(must, fmt.Sprintf(`{"lifetime_seconds":%d,"domain_names":["%s"`, int(o.Lifetime/time.Second), o.DomainNames[0]))
 			case *ndp.MTU:
 				kind, must = "mtu", []string{fmt.Sprintf(`"mtu":%d`, o.MTU)}
 			case *ndp.LinkLayerAddress:
@@ -319,7 +345,7 @@ func c17Check(c c17Case) (out [][2]string) {
 func TestVerifC17(t *testing.T) {
 	r := ev.Begin("C17", "enum")
 	defer r.End(t)
-	r.Rule = "cases = configurations (no stanza; each of 14 stanza variants alone: static/wildcard/deprecated prefix and route, static/wildcard RDNSS, DNSSL, MTU, no source LLA, captive portal, PREF64, non-default header; all together; all minus each) x lifecycle {plugins never prepared, prepared through the real Prepare with the NewAddresser seam} x State reads {ok, failing} x forwarding {on,off} x debug.prometheus x debug.pprof; for each: one metrics scrape (constScrape and Memory.Series) and GET /_/api/interfaces, /metrics, /debug/pprof/ on the real crhttp.Handler, under recover; oracle: no panic ever; prepared + readable state => every sample and the JSON equal the reference RA (every option kind rendered); /metrics and /debug/pprof/ are 200 iff enabled, 404 otherwise; non-trivial = configuration has a stanza; distinct = distinct case"
+	r.Rule = "cases = configurations (no stanza; each of 15 stanza variants alone: static/wildcard/deprecated prefix and route, static/wildcard RDNSS, DNSSL, MTU, no source LLA, captive portal, PREF64, non-default header; all together; all minus each) x lifecycle {plugins never prepared, prepared through the real Prepare with the NewAddresser seam} x State reads {ok, failing} x forwarding {on,off} x debug.prometheus x debug.pprof; for each: one metrics scrape (constScrape and Memory.Series) and GET /_/api/interfaces, /metrics, /debug/pprof/ on the real crhttp.Handler, under recover; oracle: no panic ever; prepared + readable state => every sample and the JSON equal the reference RA (every option kind rendered); /metrics and /debug/pprof/ are 200 iff enabled, 404 otherwise; non-trivial = configuration has a stanza; distinct = distinct case"
 	if r.Replay != nil {
 		var c c17Case
 		if err := json.Unmarshal(r.Replay, &c); err != nil {
